@@ -170,14 +170,19 @@ where
     /// vacuum) the chain was released while the separator still pointed to it. Searches only read the key columns
     /// of a separator, so when they lie entirely in the inline part the separator keeps just that prefix and owns
     /// no overflow page. (A key that itself continues in the chain is left as it was.)
+    ///
+    /// The same holds for a row that fits its leaf: copied whole, a row of a third of a page left room for only
+    /// three separators in an interior page, and the redistribution of its children failed with "Buffer overflow"
+    /// when it tried to insert the fourth. A separator is the key prefix of the row, whatever the row's size.
     fn separator_from(&self, cell: OwnedCell) -> OwnedCell {
-        if !cell.metadata().is_overflow() {
-            return cell;
-        }
         let Some((bitmap_size, key_kinds)) = self.key_layout.as_ref() else {
             return cell;
         };
-        let inline_len = cell.len().saturating_sub(std::mem::size_of::<PageId>());
+        let inline_len = if cell.metadata().is_overflow() {
+            cell.len().saturating_sub(std::mem::size_of::<PageId>())
+        } else {
+            cell.len()
+        };
         let data = &cell.effective_data()[..inline_len];
         let mut cursor = TupleHeader::SIZE + bitmap_size;
         for kind in key_kinds {
